@@ -171,6 +171,15 @@ def shard(ctx: Ctx, fmt: str):
     n = ctx.n(250, 4000)
     optst = st.fixed_dictionaries({k: st.sampled_from(v) for k, v in prof.get("opts", {}).items()})
     cases = st.tuples(model.documents(prof, max_units=ctx.n(8, 30) if "unit.multi" in prof["features"] else 1, max_blocks=3), optst).map(lambda t: {"doc": t[0], "opts": t[1]})
+    # deterministic part: feature-rich multi-unit documents x every combination of the renderer's options
+    fixed = 0
+    rich = model.rich_sample(prof, 4, key="c03-" + fmt, strategy=model.documents(prof, max_units=6 if "unit.multi" in prof["features"] else 1, max_blocks=3))
+    for d in rich:
+        for combo in model.option_combos(prof):
+            if len(part.violations) < 3:
+                part.violations += [v for v in evaluate(ctx, d, fmt, part, {"opts": combo} if combo else None) if v.signature not in {x.signature for x in part.violations}]
+            fixed += 1
+    part.exhaustive[f"{fmt}: 4 feature-rich documents x renderer option combinations"] = fixed
     hyp_search(ctx, f"c03-{fmt}", cases, lambda c: evaluate(ctx, c["doc"], fmt, part, {"opts": c["opts"]} if c.get("opts") else None), n, part)
     return part
 
